@@ -194,6 +194,9 @@ pub fn exchange(ctx: &mut Ctx, cfg: &Xcfg) -> Xres {
         }
         if cfg.eintr_permille > 0 {
             plan::add(Rule { kind: k::POLL, scope: plan::SCOPE_PARENT, nth: 0, fd: -1, act: plan::ACT_FAIL, val: libc::EINTR as i64, prob: cfg.eintr_permille });
+            // (a handler without SA_RESTART interrupts read() and write() just as well; less often, they are many)
+            plan::add(Rule { kind: k::READ, scope: plan::SCOPE_PARENT, nth: 0, fd: -1, act: plan::ACT_FAIL, val: libc::EINTR as i64, prob: (cfg.eintr_permille / 8).max(1) });
+            plan::add(Rule { kind: k::WRITE, scope: plan::SCOPE_PARENT, nth: 0, fd: -1, act: plan::ACT_FAIL, val: libc::EINTR as i64, prob: (cfg.eintr_permille / 8).max(1) });
         }
         if cfg.ops_budget > 0 {
             plan::OPS_BUDGET.store(cfg.ops_budget, std::sync::atomic::Ordering::SeqCst);
